@@ -854,16 +854,29 @@ def check_tiling(facts, run, prop, table, cfg, eng):
                         L = int(l[3])
                     except ValueError:
                         pass
+                elif l[0] == "cmp" and l[1][0] == "elem" and l[1][1] == ("p", 1, 0, None) and l[1][2][0] == "k":
+                    ranges.add((l[1][2][1], l[1][2][1] + 1))        # a byte tested on its own (Ed448's 57th scalar byte)
                 elif l[0] == "cmpm" and l[1] == ("len", ("p", 1, 0, None)):
                     pass
-                elif l[0] == "call" and l[4][0] == fn["id"]:
+                elif l[0] == "call":
+                    # sub-slices of the input handed to component decoders by this function or by private helpers it
+                    # calls (what a public component decoder does with its own field is its business)
+                    encl = facts.fns.get(l[4][0])
+                    if encl is None or (encl["id"] != fn["id"] and encl.get("reach")):
+                        continue
                     for x in l[2]:
+                        while x is not None and x[0] == "bswap":
+                            x = x[1]
                         if x is not None and x[0] == "p" and x[1] == 1 and x[3] is not None and not (x[2] == 0 and x[3] is None):
                             ranges.add((x[2], x[3]))
             if L is None or not ranges:
                 continue          # not a fixed-length decoder built from component decoders
             n += 1
-            rs = sorted(ranges)
+            # the fields are the maximal ranges inside [0, L): component decoders re-slice their own field further
+            inside = [r_ for r_ in ranges if 0 <= r_[0] < r_[1] <= L and r_ != (0, L)]
+            rs = sorted(r_ for r_ in inside if not any(o != r_ and o[0] <= r_[0] and r_[1] <= o[1] for o in inside))
+            if not rs:
+                continue
             ok = rs[0][0] == 0 and rs[-1][1] == L and all(rs[i][1] == rs[i + 1][0] for i in range(len(rs) - 1))
             run.oblige(ok=ok)
             if ok:
